@@ -11,6 +11,7 @@ XS = 'http://www.w3.org/2001/XMLSchema'
 SHOP = 'urn:vk:shop'
 EXT = 'urn:vk:ext'
 TREE = 'urn:vk:tree'
+CTX = 'urn:vk:ctx'
 
 
 class N:
@@ -204,8 +205,39 @@ TREE_XSD = f'''<?xml version="1.0" encoding="UTF-8"?>
 </xs:schema>
 '''
 
-FAMILIES = {'shop': SHOP_XSD, 'tree': TREE_XSD}
-FAMILY_NS = {'shop': SHOP, 'tree': TREE}
+CTX_XSD = f'''<?xml version="1.0" encoding="UTF-8"?>
+<xs:schema xmlns:xs="{XS}" targetNamespace="{CTX}" xmlns:c="{CTX}" elementFormDefault="qualified">
+  <xs:element name="item" type="xs:date"/>
+  <xs:element name="alt" type="xs:date" substitutionGroup="c:item"/>
+  <xs:complexType name="A">
+    <xs:sequence>
+      <xs:element name="item" type="xs:int" maxOccurs="unbounded"/>
+      <xs:element name="sub" minOccurs="0">
+        <xs:complexType><xs:sequence><xs:element name="item" type="xs:boolean"/></xs:sequence></xs:complexType>
+      </xs:element>
+    </xs:sequence>
+  </xs:complexType>
+  <xs:complexType name="B">
+    <xs:sequence>
+      <xs:element name="item" type="xs:string"/>
+      <xs:element name="a" type="c:A" minOccurs="0"/>
+    </xs:sequence>
+    <xs:attribute name="n" type="xs:int"/>
+  </xs:complexType>
+  <xs:element name="ctx">
+    <xs:complexType>
+      <xs:sequence>
+        <xs:element name="a" type="c:A"/>
+        <xs:element name="b" type="c:B" maxOccurs="unbounded"/>
+        <xs:element ref="c:item" minOccurs="0" maxOccurs="unbounded"/>
+      </xs:sequence>
+    </xs:complexType>
+  </xs:element>
+</xs:schema>
+'''
+
+FAMILIES = {'shop': SHOP_XSD, 'tree': TREE_XSD, 'ctx': CTX_XSD}
+FAMILY_NS = {'shop': SHOP, 'tree': TREE, 'ctx': CTX}
 
 
 def _sku(i):
@@ -331,7 +363,38 @@ def gen_tree(rng, depth=None, width=None):
     return root
 
 
-GENERATORS = {'shop': gen_shop, 'tree': gen_tree}
+def gen_ctx(rng):
+    """Same local name `item` declared with different types in different contexts."""
+    X = CTX
+
+    def a_node():
+        a = N(X, 'a', meta={'elem_only': True, 'required_children': ['item']})
+        for _ in range(rng.randint(1, 3)):
+            a.children.append(N(X, 'item', text=str(rng.randint(-9, 99)), meta={'bad_text': 'x1', 'decl': 'A/item:int'}))
+        if rng.random() < 0.5:
+            sub = N(X, 'sub', meta={'elem_only': True, 'required_children': ['item']})
+            sub.children.append(N(X, 'item', text=rng.choice(('true', 'false', '0', '1')),
+                                  meta={'bad_text': 'maybe', 'decl': 'A/sub/item:boolean'}))
+            a.children.append(sub)
+        return a
+
+    root = N(X, 'ctx', meta={'elem_only': True, 'required_children': ['a', 'b']})
+    root.children.append(a_node())
+    for i in range(rng.randint(1, 3)):
+        b = N(X, 'b', meta={'elem_only': True, 'required_children': ['item'], 'bad_attr': {'n': 'n'}})
+        if rng.random() < 0.5:
+            b.attrs.append(('', 'n', str(i)))
+        b.children.append(N(X, 'item', text=rng.choice(('text', '12', 'true', '2020-01-01')), meta={'decl': 'B/item:string'}))
+        if rng.random() < 0.5:
+            b.children.append(a_node())
+        root.children.append(b)
+    for _ in range(rng.randint(0, 3)):
+        root.children.append(N(X, rng.choice(('item', 'alt')), text=rng.choice(('2020-02-29', '1999-01-01Z')),
+                               meta={'bad_text': '2020-13-01', 'decl': 'global:date'}))
+    return root
+
+
+GENERATORS = {'shop': gen_shop, 'tree': gen_tree, 'ctx': gen_ctx}
 
 
 # ---------------------------------------------------------------------------------------------
@@ -447,9 +510,10 @@ IDENTITY_FAULTS = ('dup_key', 'dangling_keyref', 'dup_unique', 'dangling_idref',
 
 def default_prefixes(family, rng=None):
     ns = FAMILY_NS[family]
+    base = {'shop': 's', 'tree': 't', 'ctx': 'c'}[family]
     if rng is None:
-        return {ns: 's' if family == 'shop' else 't', EXT: 'e'}
-    return {ns: rng.choice(('s', '', 'q')) if family == 'shop' else rng.choice(('t', '')), EXT: 'e'}
+        return {ns: base, EXT: 'e'}
+    return {ns: rng.choice((base, '', 'q')), EXT: 'e'}
 
 
 def render_doc(root, family, rng=None, prefixes=None):
